@@ -68,3 +68,14 @@ SHARED_OBJECTS = {
     "entitiesTrie": dict(cls=[("html5lib._trie.py", "Trie"), ("html5lib._trie._base", "Trie")],
                          callers=["html5lib._tokenizer"]),
 }
+
+# classes whose methods (other than __init__) must not write any field of self: their per-token functions are then
+# functions of the token and the configuration alone, so a contract proved for one arbitrary token holds for every
+# token of a stream, whatever came before.  (module, class, properties served)
+STATELESS = [
+    ("html5lib.filters.sanitizer", "Filter", ("C09", "C10")),
+    ("html5lib.filters.optionaltags", "Filter", ("C13", "C07")),
+    ("html5lib.filters.whitespace", "Filter", ("C17",)),
+    ("html5lib.filters.alphabeticalattributes", "Filter", ("C18",)),
+    ("html5lib._ihatexml", "InfosetFilter", ()),
+]
